@@ -245,6 +245,9 @@ func stage1(file string) (string, string, float64, []string, bool) {
 // records as unclaimed).
 var skipObl func(name string) bool
 
+// shortObl, when set, names obligations that get a short time limit (lock refresh: class u).
+var shortObl func(name string) bool
+
 func discharge(results []*FuncResult, workers int, timeoutMs int, seed int, keepDir string) []*Verdict {
 	var skipped []*Verdict
 	tmp, err := os.MkdirTemp("", "arkvc")
@@ -293,6 +296,11 @@ func discharge(results []*FuncResult, workers int, timeoutMs int, seed int, keep
 				tmo := timeoutMs
 				if j.o.Cover {
 					tmo = 1500
+				}
+				// obligations that were not discharged at the last lock refresh get a short attempt
+				// only (a refresh with hundreds of them at the full limit would take hours)
+				if shortObl != nil && !j.o.Cover && shortObl(j.o.Name) && tmo > 10000 {
+					tmo = 10000
 				}
 				if !j.o.Cover && tmo > 1500 {
 					if r, backend, dt, outs, ok := stage1(file); ok {
